@@ -21,14 +21,6 @@ def pHOps? (s : String) : Option (List HOp) :=
     | [o, es] => ((es.splitOn "+").mapM pElem?).map (fun l => (⟨o, l⟩ : HOp))
     | _ => none)
 
-/-- abstract set semantics used as the property-level oracle -/
-structure SpecSet where
-  keys : List Nat
-
-def SpecSet.has (s : SpecSet) (k : Nat) : Bool := s.keys.contains k
-def SpecSet.ins (s : SpecSet) (k : Nat) : SpecSet := if s.has k then s else ⟨k :: s.keys⟩
-def SpecSet.del (s : SpecSet) (k : Nat) : SpecSet := ⟨s.keys.filter (· ≠ k)⟩
-
 /-- replay a hash-set history through the mirror and the abstract set simultaneously.
     Returns (model returns, spec returns, final model, final spec). -/
 def runHSet (ops : List HOp) : List Int × List Int × HSet × SpecSet × Bool :=
@@ -105,14 +97,6 @@ def pKOps? (s : String) : Option (List KOp) :=
     match t.splitOn ":" with
     | [o, es] => ((es.splitOn "+").mapM pInt?).map (fun l => (⟨o, l⟩ : KOp))
     | _ => none)
-
-def listMax? (l : List Int) : Option Int := l.foldl (fun acc x => match acc with | none => some x | some m => some (max m x)) none
-
-/-- remove one occurrence -/
-def eraseOne (l : List Int) (x : Int) : List Int :=
-  match l with
-  | [] => []
-  | y :: r => if y = x then r else y :: eraseOne r x
 
 def runHeap (ops : List KOp) : List Int × List Int × Heap × List Int :=
   ops.foldl (fun (st : List Int × List Int × Heap × List Int) o =>
